@@ -3,6 +3,9 @@ import Splipy.Lemmas.C17Compute
 import Splipy.Lemmas.C17Catalogue
 import Splipy.Lemmas.C17Twins
 import Splipy.Lemmas.C17Equiv
+import Splipy.Lemmas.C17Model
+import Splipy.Lemmas.C17Count
+import Splipy.Lemmas.C17Total
 
 /-!
 # Property C17 — the multipatch model identifies shared entities for any orientation and add order
@@ -76,17 +79,8 @@ theorem C17_map_array_compose {α : Type} [Inhabited α] {n : ℕ} {a b : Orient
 theorem C17_map_section_commutes {α : Type} [Inhabited α] {n : ℕ} (hn : n ≤ 3) {o : Orientation}
     (ho : o.WF n) {sec : Sec} (hs : sec.length = n) (X : NdArr α) (hX : X.shape.length = n)
     (hpos : ∀ m ∈ X.shape, 0 < m) :
-    (o.mapArray X).sect (o.mapSection sec) = (o.viewSection sec).mapArray (X.sect sec) := by
-  have ht := sectionTable hn ho hs
-  simp only [sectionRow, Bool.and_eq_true, decide_eq_true_eq] at ht
-  obtain ⟨⟨⟨⟨⟨⟨heq, hc1⟩, hc2⟩, hc3⟩, _⟩, _⟩, _⟩ := ht
-  have hco : o.toReindex.Consistent X.shape.length = true := by
-    rw [hX]; exact Orientation.toReindex_consistent ho
-  unfold Orientation.mapArray NdArr.sect
-  rw [← Reindex.apply_comp _ _ X hco (by
-        show (Sec.toReindex (o.mapSection sec)).Consistent o.perm.length = true
-        rw [ho.isPerm.length]; exact hc2) hpos,
-      ← Reindex.apply_comp _ _ X (by rw [hX]; exact hc1) hc3 hpos, heq]
+    (o.mapArray X).sect (o.mapSection sec) = (o.viewSection sec).mapArray (X.sect sec) :=
+  mapSection_commutes hn ho hs X hX hpos
 
 /-- `view_section` yields a well-formed orientation of the section's dimension, and
     `map_section` a section of the same dimension (pardim ≤ 3). -/
@@ -235,3 +229,219 @@ theorem C17_twins_and_handedness :
       SplineModel.new pardim dimension true = .error .value) :=
   ⟨Model.resolve_single_reject, Model.resolve_single_accept, Model.resolve_many_reject,
    SplineModel.add_left_handed, isRightHand_neg2, SplineModel.new_wrong_dims⟩
+
+/-! ## The catalogue induction
+
+Universe: `GU nc` = well-formed NON-RATIONAL array objects with `nc` components per control point
+and parametric dimension ≤ 3 (`Lemmas/C17Sections.lean`).  Entity identity is `Equiv`
+(`Orientation.compute` does not raise), an equivalence relation on `GU` (`C17_equiv_partial`) that is
+compatible with sections (`sect_equiv`: if `o = compute a b` then `b.section(s) ≈
+a.section(o.map_section(s))`, through `o.view_section(s)`).  The cells of the complex spanned by a
+list of patches are the patches and their iterated proper sections (`Cell`).
+
+The invariant `Inv nc S m` of a catalogue state (`Lemmas/C17Inv.lean`) says: vertex keys are
+distinct and point to point nodes with that key, every point node is registered; every node
+carries an object of `S`; the lower links of a node are the nodes REPRESENTING (`Rep`: stored
+object `≈`) the sections of its object, in `sections` order; a node is filed under its facet
+nodes; whatever is filed under a key has facet nodes that are a permutation of the key; **key
+classes**: permuted keys carry the same candidate list; distinct nodes represent distinct
+classes. -/
+
+/-- **The invariant is established by the empty catalogue and kept by `SplineModel.add`**, for
+    any list of patches from the universe, any insertion order, any orientation of every patch,
+    any twins policy (when `add` does not raise); all nodes of the old state survive with their
+    objects and lower links, and every added patch is represented afterwards. -/
+theorem C17_catalogue_invariant {nc : ℕ} {S : Obj → Prop}
+    (hsect : ∀ y sec, S y → sec.length = y.pardim → secTgtDim sec < y.pardim → S (y.sect sec)) :
+    (∀ P, Inv nc S (Model.empty P)) ∧
+    ∀ (ktol : ℚ) (sm sm' : SplineModel) (objs : List Obj) (tw : List ℕ),
+      Inv nc S sm.cat → sm.cat.levels.size = sm.pardim + 1 →
+      (∀ p ∈ objs, GU nc p ∧ p.pardim ≤ sm.pardim ∧ S p) →
+      sm.add ktol objs tw = .ok sm' →
+      Inv nc S sm'.cat ∧ Ext sm.cat sm'.cat ∧ sm'.pardim = sm.pardim ∧
+        ∀ p ∈ objs, ∃ c, Rep sm'.cat c p := by
+  refine ⟨fun P => Inv.empty nc S P, ?_⟩
+  intro ktol sm sm' objs tw hI hL hobjs hadd
+  obtain ⟨hp, hfold⟩ := SplineModel.add_ok hadd
+  obtain ⟨a, b, c⟩ := addAll_sound hsect sm.pardim tw objs sm.cat sm'.cat hI hL hobjs hfold
+  exact ⟨a, b, hp, c⟩
+
+/-- **`C17_catalogue_canonical`** (non-rational patches, parametric dimension ≤ 3).
+    Let a fresh `SplineModel(P, D, force_right_hand)` receive ANY list of patches from the universe
+    — any insertion order, every patch in any of its orientations, any twins policy — and let
+    `add` return normally.  With `m` the resulting catalogue and `Cell patches` the cells of the
+    complex (patches and iterated proper sections):
+
+    * **nodes ↔ cells up to `≈`**: every node stores a cell (A); nodes storing `≈`-equivalent
+      objects coincide (B); every cell is represented by a node (C).  Hence the nodes of dimension
+      `d` are in bijection with the `≈`-classes of `d`-cells: one node per distinct vertex, edge,
+      face, patch.
+    * **lookup** (D): `model[y]` of ANY object `y` of the universe that is `≈` to some cell (any
+      re-oriented copy of any section of any patch) returns normally, at a node representing `y`,
+      with an orientation that `compute` accepts (so by `C17_compute_sound` it maps `y`'s net and
+      bases onto the node's object);
+      (E) two lookups return the same node iff the objects are `≈`;
+      (F) **non-matching objects are reported as such**: if `model[y]` returns normally then `y`
+      is `≈` to a cell.
+
+    `nodes(d)`, `higher_nodes` and `boundary()` are in `C17_catalogue_counts`.
+
+    MISSING: rational patches (the weight-sum normalisation of `compute` needs `Σw` invariance
+    under re-indexing to be compatible with sections). -/
+theorem C17_catalogue_canonical {nc : ℕ} (P D : ℕ) (frh : Bool) (ktol : ℚ)
+    (patches : List Obj) (tw : List ℕ) (sm0 sm : SplineModel)
+    (hnew : SplineModel.new P D frh = .ok sm0)
+    (hgu : ∀ p ∈ patches, GU nc p ∧ p.pardim ≤ P)
+    (hadd : sm0.add ktol patches tw = .ok sm) :
+    (∀ c, c < sm.cat.nodes.size → Cell patches (sm.cat.node c).obj) ∧
+    (∀ c c', c < sm.cat.nodes.size → c' < sm.cat.nodes.size →
+      Equiv (sm.cat.node c).obj (sm.cat.node c').obj → c = c') ∧
+    (∀ x, Cell patches x → ∃ c, Rep sm.cat c x) ∧
+    (∀ y, GU nc y → y.pardim ≤ P → (∃ x, Cell patches x ∧ Equiv x y) →
+      ∃ id o, sm.getItem y = .ok (id, o) ∧ Rep sm.cat id y ∧
+        Orientation.compute (sm.cat.node id).obj y = .ok o) ∧
+    (∀ y z id id' o o', GU nc y → GU nc z → y.pardim ≤ P → z.pardim ≤ P →
+      sm.getItem y = .ok (id, o) → sm.getItem z = .ok (id', o') → (id = id' ↔ Equiv y z)) ∧
+    (∀ y id o, GU nc y → y.pardim ≤ P → sm.getItem y = .ok (id, o) →
+      ∃ x, Cell patches x ∧ Equiv x y) := by
+  -- the fresh model
+  have hsm0 : sm0.pardim = P ∧ sm0.cat = Model.empty P := by
+    unfold SplineModel.new at hnew
+    split at hnew
+    · simp at hnew
+    · simp only [Except.ok.injEq] at hnew
+      subst hnew; exact ⟨rfl, rfl⟩
+  have hsect : ∀ y sec, Cell patches y → sec.length = y.pardim → secTgtDim sec < y.pardim →
+      Cell patches (y.sect sec) := fun y sec hy hl ht => Cell.sect hy hl ht
+  have hgu' : ∀ p ∈ patches, GU nc p := fun p hp => (hgu p hp).1
+  obtain ⟨hI, _, hpd, hreps⟩ := (C17_catalogue_invariant (nc := nc) hsect).2 ktol sm0 sm patches tw
+    (by rw [hsm0.2]; exact Inv.empty nc _ P) (by rw [hsm0.2, hsm0.1]; exact Model.empty_lsize P)
+    (fun p hp => ⟨(hgu p hp).1, by rw [hsm0.1]; exact (hgu p hp).2, Cell.patch hp⟩) hadd
+  have hlsz : sm.cat.levels.size = P + 1 := by
+    obtain ⟨_, hE, _, _⟩ := (C17_catalogue_invariant (nc := nc) hsect).2 ktol sm0 sm patches tw
+      (by rw [hsm0.2]; exact Inv.empty nc _ P) (by rw [hsm0.2, hsm0.1]; exact Model.empty_lsize P)
+      (fun p hp => ⟨(hgu p hp).1, by rw [hsm0.1]; exact (hgu p hp).2, Cell.patch hp⟩) hadd
+    rw [hE.lsize, hsm0.2]; exact Model.empty_lsize P
+  have hsp : sm.pardim = P := by rw [hpd, hsm0.1]
+  have hcell := fun x (hx : Cell patches x) => Cell.rep hI hgu' hreps hx
+  -- `model[y]`
+  have hget : ∀ y id o, GU nc y → y.pardim ≤ P → sm.getItem y = .ok (id, o) →
+      Rep sm.cat id y ∧ Orientation.compute (sm.cat.node id).obj y = .ok o := by
+    intro y id o hy hyp h
+    unfold SplineModel.getItem at h
+    rw [hsp] at h
+    cases h1 : Model.lookup P sm.cat y false [] with
+    | error e => rw [h1] at h; simp [bind, Except.bind] at h
+    | ok r =>
+      obtain ⟨m1, id1, o1⟩ := r
+      rw [h1] at h
+      simp only [bind, Except.bind, pure, Except.pure, Except.ok.injEq, Prod.mk.injEq] at h
+      obtain ⟨rfl, rfl⟩ := h
+      obtain ⟨_, _, hR, hC, hsame⟩ := lookup_sound (nc := nc) hsect false [] P sm.cat y m1 id1 o1 hI hy hyp
+        (by rw [hlsz]; omega) (fun h => by simp at h) h1
+      rw [hsame rfl] at hR hC
+      exact ⟨hR, hC⟩
+  refine ⟨fun c hc => (hI.orig c hc).1, hI.uniq, hcell, ?_, ?_, ?_⟩
+  · rintro y hy hyp ⟨x, hx, hxy⟩
+    obtain ⟨c, hc⟩ := hcell x hx
+    have hcy : Rep sm.cat c y := Rep.equiv hI (hx.gu hgu') hy hc hxy
+    obtain ⟨r, hr⟩ := lookup_complete (nc := nc) hsect false P sm.cat y hI hy hyp
+      (by rw [hlsz]; omega) (fun h => by simp at h) ⟨c, hcy⟩
+    obtain ⟨m1, id1, o1⟩ := r
+    have hgi : sm.getItem y = .ok (id1, o1) := by
+      unfold SplineModel.getItem
+      rw [hsp]
+      beta_reduce at hr
+      rw [hr]; rfl
+    exact ⟨id1, o1, hgi, hget y id1 o1 hy hyp hgi⟩
+  · intro y z id id' o o' hy hz hyp hzp h1 h2
+    obtain ⟨hR1, _⟩ := hget y id o hy hyp h1
+    obtain ⟨hR2, _⟩ := hget z id' o' hz hzp h2
+    constructor
+    · rintro rfl
+      exact hy.equiv_trans (hI.gu hR1.1) hz ((hI.gu hR1.1).equiv_symm hy hR1.2) hR2.2
+    · intro hyz
+      have : Rep sm.cat id z := Rep.equiv hI hy hz hR1 hyz
+      exact hI.rep_unique hz this hR2
+  · intro y id o hy hyp h
+    obtain ⟨hR, _⟩ := hget y id o hy hyp h
+    exact ⟨_, (hI.orig id hR.1).1, hR.2⟩
+
+/-- **`C17_catalogue_counts`** (same hypotheses as `C17_catalogue_canonical`).
+    * `catalogue.nodes(d)` is duplicate-free and lists exactly the nodes of dimension `d`; with
+      (A)(B)(C) of `C17_catalogue_canonical` its elements form a complete irredundant system of
+      representatives of the `d`-cells modulo `≈`: **`#nodes(d)` = number of distinct `d`-cells**.
+    * **`higher_nodes`**: the node `c` occurs in `higher_nodes[c.pardim]` of the node `F` exactly
+      as often as `F` occurs among the lower links of `c`, nothing else occurs there, and the lower
+      link `(i, j)` of `c` IS `F` iff the `j`-th `i`-dimensional section of `c`'s object is `≈` to
+      `F`'s object.  So for an interface `F` the list `higher_nodes[pardim]` consists exactly of
+      its adjacent patches, each as often as it has `F` as a face (twice for a self-connected
+      patch).
+    * **`boundary()`** (when it returns): exactly the codimension-1 nodes whose `higher_nodes` list
+      is a single patch — the unshared faces. -/
+theorem C17_catalogue_counts {nc : ℕ} (P D : ℕ) (frh : Bool) (ktol : ℚ)
+    (patches : List Obj) (tw : List ℕ) (sm0 sm : SplineModel)
+    (hnew : SplineModel.new P D frh = .ok sm0)
+    (hgu : ∀ p ∈ patches, GU nc p ∧ p.pardim ≤ P)
+    (hadd : sm0.add ktol patches tw = .ok sm) :
+    (∀ d, (sm.cat.nodesOf d).Nodup ∧
+      (∀ c, c ∈ sm.cat.nodesOf d ↔ c < sm.cat.nodes.size ∧ (sm.cat.node c).obj.pardim = d) ∧
+      (∀ c ∈ sm.cat.nodesOf d, Cell patches (sm.cat.node c).obj) ∧
+      (∀ c ∈ sm.cat.nodesOf d, ∀ c' ∈ sm.cat.nodesOf d,
+        Equiv (sm.cat.node c).obj (sm.cat.node c').obj → c = c') ∧
+      (∀ x, Cell patches x → x.pardim = d → ∃ c ∈ sm.cat.nodesOf d, Equiv (sm.cat.node c).obj x)) ∧
+    (∀ F c, F < sm.cat.nodes.size → c < sm.cat.nodes.size →
+      (((sm.cat.node F).higherAt (sm.cat.node c).obj.pardim).getD []).count c =
+        (sm.cat.node c).lower.flatten.count F) ∧
+    (∀ F c d, F < sm.cat.nodes.size → ¬ (c < sm.cat.nodes.size ∧ (sm.cat.node c).obj.pardim = d) →
+      (((sm.cat.node F).higherAt d).getD []).count c = 0) ∧
+    (∀ c F i j, c < sm.cat.nodes.size → F < sm.cat.nodes.size → i < (sm.cat.node c).obj.pardim →
+      j < (sections (sm.cat.node c).obj.pardim i).length →
+      (((sm.cat.node c).lower.getD i []).getD j 0 = F ↔
+        Equiv (sm.cat.node F).obj
+          ((sm.cat.node c).obj.sect ((sections (sm.cat.node c).obj.pardim i).getD j [])))) ∧
+    (∀ bs, sm.boundary = some bs → ∀ k, k ∈ bs ↔
+      (k < sm.cat.nodes.size ∧ (sm.cat.node k).obj.pardim = P - 1) ∧
+        ∃ c, (sm.cat.node k).higherAt ((sm.cat.node k).pardim + 1) = some [c]) := by
+  obtain ⟨hI, hsp, _, hreps⟩ := fresh_add_inv (nc := nc) P D frh ktol patches tw sm0 sm hnew hgu hadd
+  have hgu' : ∀ p ∈ patches, GU nc p := fun p hp => (hgu p hp).1
+  refine ⟨fun d => ?_, fun F c hF hc => higher_spec hI hF hc,
+    fun F c d hF hc => higher_spec_zero hI hF hc,
+    fun c F i j hc hF hi hj => lower_eq_iff hI hc hF hi hj,
+    fun bs hbs k => by rw [← hsp]; exact boundary_spec hI hbs k⟩
+  obtain ⟨hnd, hmem⟩ := nodesOf_spec hI d
+  refine ⟨hnd, hmem, fun c hc => (hI.orig c ((hmem c).1 hc).1).1, ?_, ?_⟩
+  · intro c hc c' hc' heq
+    exact hI.uniq c c' ((hmem c).1 hc).1 ((hmem c').1 hc').1 heq
+  · intro x hx hxd
+    obtain ⟨c, hc⟩ := Cell.rep hI hgu' hreps hx
+    exact ⟨c, (hmem c).2 ⟨hc.1, by rw [hc.2.pardim_eq]; exact hxd⟩, hc.2⟩
+
+/-- With twins tolerated (`raise_on_twins=False`) and handedness not forced, `SplineModel.add`
+    never raises on patches of the model's physical dimension and parametric dimension ≤ 3 — so the
+    hypothesis "`add` returns normally" of the catalogue theorems excludes only rejected twins and
+    rejected left-handed patches. -/
+theorem C17_add_total (ktol : ℚ) (sm : SplineModel) (objs : List Obj)
+    (hfr : sm.forceRightHand = false) (hP : sm.pardim ≤ 3)
+    (hobjs : ∀ p ∈ objs, p.dimension = sm.dimension ∧ p.pardim ≤ sm.pardim) :
+    ∃ sm', sm.add ktol objs [] = .ok sm' := SplineModel.add_total ktol sm objs hfr hP hobjs
+
+/-- the hypotheses of `C17_catalogue_canonical` / `C17_catalogue_counts` are satisfiable
+    (a model of curves in the plane holding one segment). -/
+example : ∃ (patches : List Obj) (sm0 sm : SplineModel), patches ≠ [] ∧
+    SplineModel.new 1 2 false = .ok sm0 ∧ (∀ p ∈ patches, GU 2 p ∧ p.pardim ≤ 1) ∧
+    sm0.add (1 / 10000000000) patches [] = .ok sm := by
+  let seg : Obj := ⟨[{ order := 2, knots := #[0, 0, 1, 1], periodic := -1 }], ⟨[2], #[[0, 0], [1, 0]]⟩, false⟩
+  have hgu : GU 2 seg := by
+    refine ⟨rfl, ⟨rfl, rfl, by decide, fun i hi => ?_⟩, fun k hk => ?_, by decide⟩
+    · have : i = 0 := by simpa [Obj.pardim, seg] using hi
+      subst this; simp [KnotsOK, seg]
+    · have hk' : k < 2 := hk
+      have : k = 0 ∨ k = 1 := by omega
+      rcases this with rfl | rfl <;> rfl
+  obtain ⟨sm, hsm⟩ := SplineModel.add_total (1 / 10000000000) ⟨1, 2, false, Model.empty 1⟩ [seg] rfl
+    (by decide) (fun p hp => by
+      simp only [List.mem_singleton] at hp; subst hp
+      exact ⟨hgu.dimension, by decide⟩)
+  exact ⟨[seg], ⟨1, 2, false, Model.empty 1⟩, sm, by simp, rfl,
+    fun p hp => by simp only [List.mem_singleton] at hp; subst hp; exact ⟨hgu, by decide⟩, hsm⟩
